@@ -872,4 +872,23 @@ theorem runX_inv2 (c : Crypto G) (env : Env) (hb : env.bindsHash = true) (sh : I
 theorem groupK_pos {n : Nat} (h : 0 < n) : 0 < groupK n := by
   unfold groupK; omega
 
+theorem run_tri (c : Crypto G) (env : Env) (hb : env.bindsHash = true) (hex : env.blockExists = false)
+    (sh : Id → Data → G) (gs : Data → G) (hl : Lawful c env sh gs) (F : List MsgId) (ws : List (Wire G)) :
+    ∀ pr : Proc G, (Collecting c env gs F pr ∨ Finished env gs pr ∨ Ready c env gs pr) →
+      (Collecting c env gs F (Proc.run c env pr ws) ∨ Finished env gs (Proc.run c env pr ws) ∨
+        Ready c env gs (Proc.run c env pr ws)) := by
+  induction ws with
+  | nil => intro pr h; exact h
+  | cons w rest ih =>
+    intro pr h
+    show _ ∨ _ ∨ _
+    rcases h with hc | hf | hr
+    · rcases (deliver_collecting c env hb hex sh gs hl F pr w hc).1 with h1 | h1
+      · exact ih _ (Or.inl h1)
+      · exact ih _ (Or.inr (Or.inl h1))
+    · exact ih _ (Or.inr (Or.inl (deliver_finished c env gs pr w hf)))
+    · rcases (deliver_ready c env hex sh gs hl pr w hr).1 with h1 | h1
+      · exact ih _ (Or.inr (Or.inr h1))
+      · exact ih _ (Or.inr (Or.inl h1))
+
 end Rangers.Proofs.Round
